@@ -1128,6 +1128,8 @@ class SymEval:
                 return sum(items)
             if m == "count" and not args:
                 return len(items)
+            if m in ("max", "min") and not args and all(isinstance(x, int) and not isinstance(x, bool) for x in items):
+                return ("some", max(items) if m == "max" else min(items)) if items else NONE
             if m == "filter_map" and len(args) == 1:
                 out_ = []
                 for x in items:
